@@ -86,6 +86,21 @@ SortOK(r) ==
     /\ Distinct(r.ids) /\ \A i \in 1..r.n : r.ids[i] \in 1..r.n
     /\ \A i \in 1..(r.n - 1) : r.before[r.ids[i]] <= r.before[r.ids[i + 1]]
 
+\* C09 at 10^6 elements: constructor once per element entering, destructor once per element leaving, bytes kept across
+\* every reallocation, capacity >= size (exactly size after shrink_to_fit), at(size) aborts
+VecOK(r) ==
+    /\ r.out = "ok" /\ r.priv /\ r.xbad = 0
+    /\ r.ctors = r.n /\ r.cap1 >= r.n /\ r.kept1 /\ r.cap2 >= 3 * r.n
+    /\ r.dtors2 = r.n - r.n \div 2 /\ r.size2 = r.n \div 2 /\ r.kept2
+    /\ r.cap3 = r.size2 /\ r.kept3 /\ r.sorted /\ r.atend
+    /\ r.dtors = r.n /\ r.size4 = 0
+\* C10 at 3*10^5 characters: sizes, terminator, contents against the construction rule, find, erase, substr to the end
+StrOK(r) ==
+    /\ r.out = "ok" /\ r.priv
+    /\ r.size1 = r.n /\ r.size2 = r.n + 3 /\ r.term /\ r.content
+    /\ r.f1 = r.n \div 2 /\ r.f2 = r.n \div 2 + 1 /\ r.f3 = -1
+    /\ r.size3 = r.size2 - r.n \div 2 /\ r.subsize = r.size3 - 1 /\ r.cmp0 = 0 /\ r.cap >= r.size3
+
 BigOK(r) == CASE r.op = "heapdrain" -> HeapOK(r)
               [] r.op \in {"slistsort", "dlistsort"} -> ListOK(r)
               [] r.op = "rbbig" -> TreeOK(r, TRUE)
@@ -93,6 +108,8 @@ BigOK(r) == CASE r.op = "heapdrain" -> HeapOK(r)
               [] r.op = "mapbig" -> MapOK(r)
               [] r.op = "hashbig" -> HashOK(r)
               [] r.op = "sortbig" -> SortOK(r)
+              [] r.op = "vecbig" -> VecOK(r)
+              [] r.op = "strbig" -> StrOK(r)
               [] OTHER -> FALSE
 VARIABLE i
 TInit == i = 1
